@@ -28,7 +28,7 @@ LEVEL_TEXT = ("For each sampled draw scenario (both APIs, still and animated, ev
               "reset attributes, no open control string / pending chunked transfer (a probe glyph "
               "must land on the grid), termios as on entry, render data finalized exactly once, "
               "size and current frame unchanged, and the documented exception contract. "
-              "Exhaustive over fault positions per scenario; scenarios are sampled.")
+              "An interrupted flush delivers a prefix of what is pending and a write may stop inside data buffered by earlier writes; stdout may not be a tty (then only the state after the final flush is judged) and the terminal starts from seeded termios attributes. Exhaustive over fault positions per scenario; scenarios are sampled.")
 LEVEL_NOTE = ("Trusted: VTerm's parser (C0 inside CSI, ESC aborts a sequence, ST/BEL termination, "
               "kitty chunking), SimStdout's partial-write model, the clean-up boundary rule "
               "(first write of exactly LF / CSI n B / SGR-reset / show-cursor in the fault-free "
